@@ -513,8 +513,8 @@ def is_eof_test(body, blk, du):
             deps = data_deps(body, r[1].rv.ops[0], du) + data_deps(body, r[1].rv.ops[1], du)
             calls = [x[1].callee for x in deps if x[0] == 'call' and x[1].callee]
             has_cap = any(c.is_('buffer_redux::BufReader::capacity') for c in calls)
-            has_len = any(c.path.endswith('slice::len') or c.name == 'len' for c in calls)
-            has_buf = any(is_buffer_call(_PROG[0], c) for c in calls)
+            has_len = any(c.path.endswith('slice::len') or c.name == 'len' or c.is_('buffer_redux::BufReader::buf_len') for c in calls)
+            has_buf = any(is_buffer_call(_PROG[0], c) or c.is_('buffer_redux::BufReader::buf_len') for c in calls)
             if has_cap and has_len and has_buf:
                 return True
     return False
